@@ -1228,10 +1228,11 @@ def shrink(ctx) -> None:
     size = lambda sh: (sum(len(f) for f in sh), sum(sum(f) for f in sh))
     for v in ctx.violations:
         case = v["replay"]
-        if (v["key"] in seen or v["key"].startswith(KNOWN_KEY) or not isinstance(case, dict)
+        key = KNOWN_KEY if v["key"].startswith(KNOWN_KEY) else v["key"]      # the known finding: shrink one instance
+        if (key in seen or not isinstance(case, dict)
                 or "damage" not in case or "shape" not in case or "api" not in case):
             continue
-        seen.add(v["key"])
+        seen.add(key)
         for shape in ([[1]], [[1], [1]], [[1, 1]], [[2], [1]]):
             if size(shape) >= size(case["shape"]):
                 continue
